@@ -122,6 +122,7 @@ package disk
 
 //@ func (MemDisk).Read (d, a)
 //@   requires d.l != nil && !held_w[ref(d.l)] && !held_r[ref(d.l)] && !didunlock[ref(d.l)]
+//@   lock d.l
 //@   panics_iff [out-of-range address refused] a >= uint64(len(d.blocks))
 //@   on_panic [nothing changed] unchanged()
 //@   ensures [one fresh block] len(result) == 4096 && fresh(result)
@@ -145,7 +146,9 @@ package disk
 //@   ensures [number of blocks] result == uint64(len(d.blocks))
 
 //@ func (MemDisk).Barrier (d)
+//@   lock d.l
 //@ func (MemDisk).Close (d)
+//@   lock d.l
 
 // ---- FileDisk: view(d)[b][i] = kdata[fino[d.fd]][b*4096+i], size = d.numBlocks -----------------
 
